@@ -407,7 +407,7 @@ def replay(ctx, path):
 def run(ctx):
     import translate_grammar
     quick = ctx.tier == "quick"
-    n_problems = 55 if quick else 2500
+    n_problems = 140 if quick else 2500
     t0 = time.time()
     # ---- 1. regenerate Gen/ from the tree under test (fail closed)
     try:
@@ -451,7 +451,7 @@ def run(ctx):
     sentences += sw
     for i in range(n_problems):
         rng = random.Random(f"{ctx.seed}:C12:{i}")
-        S, plan, c1 = G.gen_problem(rng, wild=0.0 if i % 3 else 0.5)
+        S, plan, c1 = G.gen_problem(rng, wild=0.0 if i % 3 else 0.5, tame=i % 3 != 0)
         cov.update(c1)
         problems.append((i, S, plan))
         sentences += S
@@ -606,13 +606,17 @@ def run(ctx):
         j = len(cur) - 1
         while j >= 0:
             cand = cur[:j] + cur[j + 1:]
-            if any(s["block"] == "cell" for s in cand) and any(s["block"] == "surface" for s in cand):
+            # only cards nothing refers to may go: the context conditions of a well-formed problem must survive
+            sh = cur[j]["shape"]
+            free = sh[0] in ("tally", "sdef", "text") or (
+                sh[0] == "data" and sh[2][1] not in ("mode", "imp", "vol", "u", "lat", "fill", "tr"))
+            if free:
                 b2 = oracle_file(G.problem_text(cand, None, crlf=crlf))
                 if b2 is not None and b2["exception"] == bad["exception"]:
                     cur = cand
             j -= 1
         text2 = G.problem_text(cur, None, crlf=crlf)
-        ctx.fail({"kind": "file", "text": text2, "failure": oracle_file(text2), "crlf": crlf,
+        ctx.fail({"kind": "file", "text": text2, "failure": oracle_file(text2), "crlf": crlf, "original_text": text,
                   "cards": [{"block": s["block"], "shape": s["shape"], "mask": s["mask"]} for s in cur],
                   "tags": sorted(set(t for s in cur for t in s["tags"]))})
         if len(ctx.violations) >= MAXV:
